@@ -9,7 +9,7 @@
             [skel] (structure, key order, values, tags, quoting) plus the comment-line multiset.
    KTable : runtime values of the tables the model takes from the translators (yaml.FieldOrder,
             the three whitelists) and of the go-yaml style bits, probed by name. *)
-From KV Require Export Yaml.Fmt Yaml.FmtTablesRef.
+From KV Require Export Yaml.Fmt Yaml.FmtTablesRef Yaml.Resolve11.
 
 (* short forms used by the harness' term printer *)
 Definition h0 (tag : string) (style : N) : hdr := mkHdr "" "" "" "" tag style.
@@ -19,12 +19,32 @@ Definition s0 (v : string) : cnode := CScalar (h0 "!!str" 0) v.
 Definition m0 (kvs : list (cnode * cnode)) : cnode := CMap (h0 "!!map" 0) kvs.
 Definition q0 (es : list cnode) : cnode := CSeq (h0 "!!seq" 0) es.
 
+(* (text, IsValueNonString, valueHasType boolean / integer / number) observed on the implementation *)
+Definition scal_obs : Type := string * (bool * (bool * (bool * bool))).
+
+(* Resolve11 agrees with go-yaml v2 wherever it claims to know the answer *)
+Definition scal_agree (o : scal_obs) : bool :=
+  let '(v, (ns, (tb, (ti, tn)))) := o in
+  if String.eqb v "" || has_newline v then negb ns
+  else match resolve11 v with
+       | None => true
+       | Some r =>
+           Bool.eqb (negb (rtag_eqb r RStr)) ns &&
+           (negb ns ||
+            (Bool.eqb (rtag_has_type r "boolean") tb && Bool.eqb (rtag_has_type r "integer") ti &&
+             Bool.eqb (rtag_has_type r "number") tn))
+       end.
+
 Inductive case20 :=
 | KDocs (docs : list (cnode * sch)) (nonstr : list string)
+        (hastype : list (string * string))       (* (value, OpenAPI type) pairs for which valueHasType holds *)
         (cls : oclass) (outs : list cnode)
         (written : option (list cnode * bool))   (* re-parsed ByteWriter output; compare comments? *)
         (dc_in dc_out : list string)             (* comments on the DocumentNodes (outside fmtNode's reach)
                                                     of the input / of the re-parsed output *)
+        (scal : list scal_obs)                   (* every distinct scalar text of the stream with what go-yaml v2
+                                                    says about it (checked against Resolve11 on its fragment) *)
+| KScalars (scal : list scal_obs)                (* the same for a fixed pool of adversarial texts *)
 | KTable (ranks : list (string * option N))
          (kinds apis : list (string * bool))
          (fields : list (string * option string))
@@ -142,9 +162,12 @@ Fixpoint count_distinct (l : list string) : N :=
 
 Definition agree20 (c : case20) : bool :=
   match c with
-  | KDocs docs ns cls outs written dci dco =>
-      let nonstr := fun s => str_in s ns in
-      match filter_stream nonstr isort docs with
+  | KDocs docs ns ht cls outs written dci dco scal =>
+      (* the model answers by Resolve11 on its fragment and by the per-case oracle tables elsewhere *)
+      let nonstr := nonstr_m (fun s => str_in s ns) in
+      let hastype := hastype_m (fun v t => existsb (fun p => String.eqb (fst p) v && String.eqb (snd p) t) ht) in
+      forallb scal_agree scal &&
+      match filter_stream nonstr hastype isort docs with
       | Ok outs' =>
           oclass_eqb20 cls COk && list_eqb cnode_eqb outs' outs &&
           match written with
@@ -153,6 +176,7 @@ Definition agree20 (c : case20) : bool :=
           end
       | r => oclass_eqb20 cls (class_of r)
       end
+  | KScalars scal => forallb scal_agree scal
   | KTable ranks kinds apis fields sizes sd ss rk ra rf =>
       forallb (fun p => opt_N_eqb (field_order (fst p)) (snd p)) ranks &&
       forallb (fun p => Bool.eqb (str_in (fst p) wl_kinds) (snd p)) kinds &&
@@ -177,9 +201,12 @@ Definition mismatches20 (l : list case20) : list N := mism_from20 0%N l.
 (* diagnostic: which comparison fails (0 = none) — used when investigating a disagreement *)
 Definition diag20 (c : case20) : N :=
   match c with
-  | KDocs docs ns cls outs written dci dco =>
-      let nonstr := fun s => str_in s ns in
-      match filter_stream nonstr isort docs with
+  | KDocs docs ns ht cls outs written dci dco scal =>
+      (* the model answers by Resolve11 on its fragment and by the per-case oracle tables elsewhere *)
+      let nonstr := nonstr_m (fun s => str_in s ns) in
+      let hastype := hastype_m (fun v t => existsb (fun p => String.eqb (fst p) v && String.eqb (snd p) t) ht) in
+      if negb (forallb scal_agree scal) then 7%N else
+      match filter_stream nonstr hastype isort docs with
       | Ok outs' =>
           if negb (oclass_eqb20 cls COk) then 1%N
           else if negb (list_eqb cnode_eqb outs' outs) then 2%N
@@ -198,4 +225,5 @@ Definition diag20 (c : case20) : N :=
       | r => if oclass_eqb20 cls (class_of r) then 0%N else 1%N
       end
   | KTable _ _ _ _ _ _ _ _ _ _ => if agree20 c then 0%N else 6%N
+  | KScalars scal => if forallb scal_agree scal then 0%N else 7%N
   end.
